@@ -60,7 +60,22 @@ class Cases:
         self.dist[key] = self.dist.get(key, 0) + n
 
 
-def near_int(a, scale):
+def as_dtype(a, dtype, noncontig=False):
+    """integer-valued array -> the requested dtype, optionally as a non-contiguous view (same values)"""
+    a = np.asarray(a).astype(dtype)
+    if noncontig:
+        big = np.zeros(a.shape[:-1] + (2 * a.shape[-1],), dtype=a.dtype)
+        big[..., ::2] = a
+        a = big[..., ::2]
+        if a.ndim > 1:                      # and permuted strides on the leading axes
+            a = np.ascontiguousarray(np.swapaxes(a, 0, -1)).swapaxes(0, -1)
+    return a
+
+
+DTYPES = ["float64", "float32", "int64", "int32", "int16", "uint8"]
+
+
+def near_int(a, scale, tol=None):
     """(rounded ints, ok) — ok iff every entry is within TOL*scale of an integer and real"""
     a = np.asarray(a)
     if np.iscomplexobj(a):
@@ -70,7 +85,7 @@ def near_int(a, scale):
     if not np.all(np.isfinite(a)):
         return None, False
     r = np.round(a)
-    return r.astype(np.int64), bool(np.max(np.abs(a - r), initial=0) <= TOL * scale)
+    return r.astype(np.int64), bool(np.max(np.abs(a - r), initial=0) <= (tol or TOL) * scale)
 
 
 # ---------------------------------------------------------------------------
@@ -137,11 +152,14 @@ def direct_rows(xb, wb):
     return np.stack([direct_full(xb[i], wb[i]) for i in range(rows)])
 
 
-def conv_check(ctx, cs, x, w, tag, model=True):
+def conv_check(ctx, cs, x, w, tag, model=True, dtype="float64", wdtype=None, noncontig=False):
     """x: int array (..., nsx); w: int array (..., nsw) broadcastable on the leading axes."""
     f = F()
     nsx, nsw = x.shape[-1], w.shape[-1]
-    d = {"op": "convolve", "x": x.tolist(), "w": w.tolist(), "kind": tag}
+    wdtype = wdtype or dtype
+    tol = 1e-4 if "float32" in (dtype, wdtype) else TOL          # single precision transform for float32 data
+    d = {"op": "convolve", "x": x.tolist(), "w": w.tolist(), "kind": tag, "dtype": dtype, "wdtype": wdtype,
+         "noncontig": noncontig}
     tags = {"op": "convolve", "nsx_plus_nsw_pow3": int(f_is_pow3(smooth_ge(nsx + nsw)))}
     lead = np.broadcast_shapes(x.shape[:-1], w.shape[:-1])
     xb = np.broadcast_to(x, lead + (nsx,)).reshape(-1, nsx)
@@ -149,7 +167,7 @@ def conv_check(ctx, cs, x, w, tag, model=True):
     res = {}
     for mode in ("full", "same"):
         try:
-            c = f.convolve(x.astype(np.float64), w.astype(np.float64), mode=mode)
+            c = f.convolve(as_dtype(x, dtype, noncontig), as_dtype(w, wdtype, noncontig), mode=mode)
         except Exception as e:
             ctx.fail("convolve(mode=%s) raised %r" % (mode, e), d, dict(tags, kind="exception", mode=mode))
             return
@@ -160,9 +178,9 @@ def conv_check(ctx, cs, x, w, tag, model=True):
                      d, dict(tags, kind="shape", mode=mode))
             return
         scale = max(1.0, float(np.abs(xb).sum(axis=-1).max()) * float(np.abs(wb).max()))
-        r, ok = near_int(c.reshape(-1, explen), scale)
+        r, ok = near_int(c.reshape(-1, explen), scale, tol)
         if not ok:
-            ctx.fail("convolve(mode=%s) of integer sequences is not integer-valued within 1e-9*scale" % mode,
+            ctx.fail("convolve(mode=%s) of integer sequences is not integer-valued within tolerance*scale" % mode,
                      d, dict(tags, kind="values", mode=mode))
             return
         res[mode] = r
@@ -264,6 +282,17 @@ def part_convolve(ctx, cs):
         x = rand_ints(rng, int(np.prod(sx))).reshape(sx)
         w = rand_ints(rng, int(np.prod(sw))).reshape(sw)
         conv_check(ctx, cs, x, w, "nd-%dx%d" % (len(sx), len(sw)))
+    # (e) representation: float32 / signed / unsigned integer dtypes (mixed between x and w), non-contiguous
+    #     views; lengths include padded sizes that are powers of three
+    for k in range(120 if thorough else 48):
+        nsx, nsw = rng.choice([(rng.randrange(1, 30), rng.randrange(1, 30)), (13, 14), (20, 7), (3, 6), (40, 41), (1, 2)])
+        dt, wdt = DTYPES[k % len(DTYPES)], rng.choice(DTYPES)
+        lo = 0 if "uint8" in (dt, wdt) else -9
+        sx = rng.choice([(nsx,), (2, nsx), (2, 3, nsx)])
+        x = rand_ints(rng, int(np.prod(sx)), lo, 9).reshape(sx)
+        w = rand_ints(rng, nsw, lo, 9)
+        conv_check(ctx, cs, x, w, "dtype-%s" % dt, dtype=dt, wdtype=wdt, noncontig=(k % 3 == 0))
+        cs.count("convolve_noncontig" if k % 3 == 0 else "convolve_contig_dtype")
 
 
 # ---------------------------------------------------------------------------
@@ -278,7 +307,8 @@ def part_fscale(ctx, cs):
             si = rng.choice([1, 0.5, 0.002, 1 / 30000, 1 / 2500, 3.0])
             d = {"op": "fscale", "ns": ns, "si": si, "one_sided": one_sided}
             try:
-                fs = np.asarray(f.fscale(ns, si, one_sided=one_sided), dtype=np.float64)
+                ns_in = rng.choice([int, np.int64, np.int32])(ns)
+                fs = np.asarray(f.fscale(ns_in, si, one_sided=one_sided), dtype=np.float64)
             except Exception as e:
                 ctx.fail("fscale raised %r" % (e,), d, {"op": "fscale", "kind": "exception"})
                 continue
@@ -409,9 +439,20 @@ def part_half(ctx, cs):
             # Gaussian-integer array, same shape and axis: each fibre through the model
             if len(shp) > 1:
                 G = gauss(rng, shp)
+                rep = rng.choice(["c128", "c64", "noncontig", "npaxis", "int"])
+                axp = axis
+                if rep == "c64":
+                    G = G.astype(np.complex64)              # small integers: exact in single precision
+                elif rep == "noncontig":
+                    G = np.ascontiguousarray(np.swapaxes(G, 0, -1)).swapaxes(0, -1)
+                elif rep == "npaxis":
+                    axp = rng.choice([np.int64, np.int32, np.intp])(axis)
+                elif rep == "int":
+                    G = G.real.astype(rng.choice([np.int64, np.int32, np.int16]))
+                cs.count("half_rep_" + rep)
                 try:
-                    r = f.freduce(G, axis=axis)
-                    e = f.fexpand(r, ns, axis=axis)
+                    r = f.freduce(G, axis=axp)
+                    e = f.fexpand(r, ns if rep != "npaxis" else np.int64(ns), axis=axp)
                 except Exception as ex:
                     ctx.fail("freduce/fexpand raised %r" % (ex,), {"op": "freduce-nd", "shape": list(shp), "axis": axis},
                              {"op": "freduce", "kind": "exception"})
@@ -442,8 +483,20 @@ def part_dft(ctx, cs):
                 is_c = bool(np.any(np.iscomplex(x)))
                 ns = shp[axis]
                 d = {"op": "dft", "x": flat_c(x.reshape(-1)), "shape": list(shp), "axis": axis}
+                xin = x
+                rep = rng.choice(["plain", "plain", "f32", "int", "noncontig", "npaxis"])
+                if rep == "f32":
+                    xin = x.astype(np.complex64) if is_c else x.real.astype(np.float32)
+                elif rep == "int" and not is_c:
+                    xin = x.real.astype(rng.choice([np.int64, np.int32, np.int16]))
+                elif rep == "noncontig" and len(shp) > 1:
+                    xin = np.ascontiguousarray(np.swapaxes(x, 0, -1)).swapaxes(0, -1)
+                axp = (axis - len(shp)) if rng.random() < 0.3 else axis
+                if rep == "npaxis":
+                    axp = rng.choice([np.int64, np.int32])(axp)
+                cs.count("dft_rep_" + rep)
                 try:
-                    X = np.asarray(f.dft(x, axis=(axis - len(shp)) if rng.random() < 0.3 else axis))
+                    X = np.asarray(f.dft(xin, axis=axp))
                 except Exception as e:
                     ctx.fail("dft raised %r" % (e,), d, {"op": "dft", "kind": "exception"})
                     continue
@@ -585,23 +638,30 @@ def part_filters(ctx, cs):
         elif use_axis is not None and rr < 0.45:
             use_axis = rng.choice([np.int64, np.int32, np.intp])(axis)     # axis as a NumPy integer
         dd["axis_passed"] = repr(use_axis)
+        tdt = rng.choice(["float64", "float64", "float32", "int64", "int32", "int16"])
+        nc = rng.random() < 0.3
+        dd["dtype"], dd["noncontig"] = tdt, nc
+        tsin = as_dtype(ts, tdt, nc)
+        ftol = 1e-4 if tdt == "float32" else TOL
+        cs.count("filter_dtype_" + tdt)
+        cs.count("filter_noncontig" if nc else "filter_contig")
         try:
-            o_lp = np.asarray(f.lp(ts.copy(), si, bf[0:2], axis=use_axis))
-            o_hp = np.asarray(f.hp(ts.copy(), si, bf[0:2], axis=use_axis))
-            o_bp = np.asarray(f.bp(ts.copy(), si, bf, axis=use_axis))
-            o_lp2 = np.asarray(f.lp(np.asarray(f.hp(ts.copy(), si, bf[0:2], axis=use_axis)), si, bf[2:4], axis=use_axis))
+            o_lp = np.asarray(f.lp(tsin.copy() if not nc else tsin, si, bf[0:2], axis=use_axis))
+            o_hp = np.asarray(f.hp(tsin.copy() if not nc else tsin, si, bf[0:2], axis=use_axis))
+            o_bp = np.asarray(f.bp(tsin.copy() if not nc else tsin, si, bf, axis=use_axis))
+            o_lp2 = np.asarray(f.lp(np.asarray(f.hp(tsin, si, bf[0:2], axis=use_axis)), si, bf[2:4], axis=use_axis))
         except Exception as e:
             ctx.fail("lp/hp/bp raised %r" % (e,), dd, {"op": "filter", "kind": "exception", "nd": nd})
             continue
         scale = max(1.0, float(np.abs(ts).sum()))
         tags = {"op": "filter", "nd": nd, "last_axis": axis == nd - 1}
-        if o_lp.shape != ts.shape or np.max(np.abs(o_lp + o_hp - ts)) > TOL * scale:
+        if o_lp.shape != ts.shape or np.max(np.abs(o_lp + o_hp - ts)) > ftol * scale:
             ctx.fail("lp + hp with the same corners is not the identity", dd, dict(tags, kind="lp+hp"))
-        if o_bp.shape != ts.shape or np.max(np.abs(o_bp - o_lp2)) > TOL * scale:
+        if o_bp.shape != ts.shape or np.max(np.abs(o_bp - o_lp2)) > ftol * scale:
             ctx.fail("bp differs from lp(b[2:4]) applied to hp(b[0:2])", dd, dict(tags, kind="bp-product"))
         if nd > 1 and o_lp.shape == ts.shape:
             for a_, b_ in zip(fibres(ts, axis), fibres(o_lp, axis)):
-                if np.max(np.abs(np.asarray(f.lp(a_.copy(), si, bf[0:2])) - b_)) > TOL * scale:
+                if np.max(np.abs(np.asarray(f.lp(a_.copy(), si, bf[0:2])) - b_)) > ftol * scale:
                     ctx.fail("lp along axis %d of a %d-D array is not the 1-D filter of each fibre" % (axis, nd),
                              dd, dict(tags, kind="fibre"))
                     break
@@ -610,7 +670,7 @@ def part_filters(ctx, cs):
         bshape[axis] = ns
         for typ, o in (("hp", o_hp), ("lp", o_lp), ("bp", o_bp)):
             ref = np.real(np.fft.ifft(S * resp[typ].reshape(bshape), axis=axis))
-            if o.shape != ref.shape or np.max(np.abs(o - ref)) > TOL * scale:
+            if o.shape != ref.shape or np.max(np.abs(o - ref)) > ftol * scale:
                 ctx.disagree("%s output differs from ifft(fft(ts) * model response)" % typ, dict(dd, typ=typ))
         cs.evals += 4
         cs.count("filter_%dd" % nd)
@@ -668,6 +728,51 @@ def part_cosine(ctx, cs):
         cs.evals += 1
         cs.count("fcn_cosine")
     ctx.measurements["fcn_cosine_largest_decrease_between_sorted_samples"] = worst
+    # correspondence with the model's taper codes (Run op 8) on exactly representable arguments, with exact ties
+    # x == b0, x == b1 and their neighbours; x passed as float64 / float32 / integer arrays
+    model = common.Extracted(PROP)
+    jobs = []
+    for _ in range(300 if ctx.thorough() else 100):
+        den = rng.choice([1, 1, 2, 4, 8, 10, 3])
+        b0n = rng.randrange(-50, 50)
+        b1n = b0n + rng.randrange(1, 40)
+        xs = sorted({b0n - 2, b0n - 1, b0n, b0n + 1, (b0n + b1n) // 2, b1n - 1, b1n, b1n + 1, b1n + 2,
+                     rng.randrange(b0n - 5, b1n + 6), rng.randrange(b0n, b1n + 1)})
+        jobs.append((den, b0n, b1n, xs))
+    inputs = [[8, b0n, b1n, xn] for (den, b0n, b1n, xs) in jobs for xn in xs]
+    outs = model.run_many(inputs)
+    pos = 0
+    for (den, b0n, b1n, xs) in jobs:
+        codes = outs[pos:pos + len(xs)]
+        pos += len(xs)
+        exp = np.array([taper_value(*c) for c in codes])
+        xdt = rng.choice(["float64", "float64", "float32", "int64"]) if den == 1 else "float64"
+        xarr = (np.array(xs, dtype=np.float64) / den).astype(xdt)
+        bounds = rng.choice([list, np.array, tuple])([b0n / den, b1n / den])
+        d = {"op": "fcn_cosine-codes", "den": den, "b0n": b0n, "b1n": b1n, "xn": xs, "xdtype": xdt}
+        try:
+            y = np.asarray(u.fcn_cosine(bounds)(xarr.copy()), dtype=np.float64)
+        except Exception as e:
+            ctx.fail("fcn_cosine raised %r" % (e,), d, {"op": "fcn_cosine", "kind": "exception", "xdtype": xdt})
+            continue
+        tol = 1e-6 if xdt == "float32" else 1e-12
+        sel = np.ones(len(xs), dtype=bool)
+        if y.shape != exp.shape or np.max(np.abs(y[sel] - exp[sel]), initial=0) > tol:
+            ctx.disagree("fcn_cosine differs from the model's taper code values", d)
+        for xn, yv in zip(xs, y):
+            if (xn <= b0n and yv != 0.0) or (xn >= b1n and abs(yv - 1.0) > (0 if xdt != "float32" else 1e-6)):
+                ctx.fail("fcn_cosine(%s/%s) = %r at or beyond a bound (bounds %s/%s, %s/%s)" % (xn, den, float(yv), b0n, den, b1n, den),
+                         d, {"op": "fcn_cosine", "kind": "exact-bound", "xdtype": xdt})
+                break
+        cs.evals += len(xs)
+        cs.count("fcn_cosine_codes", len(xs))
+        cs.count("fcn_cosine_x_" + xdt)
+        cs.nontrivial.add(("cos", den, b0n, b1n))
+    k = min(60, len(inputs))
+    bad = common.coq_mismatches(PROP, HEADER, [common.flat_cases_term(i, inputs[i], outs[i]) for i in range(k)])
+    for i in bad:
+        ctx.disagree("kernel-evaluated taper code differs from the extracted model", {"op": "fcn_cosine-codes", "flat": inputs[i]})
+    ctx.coverage["cosine_model_evaluations_extracted"] = len(inputs)
 
 
 # ---------------------------------------------------------------------------
@@ -733,12 +838,15 @@ def replay(ctx, data):
             for mode in ("full", "same"):
                 try:
                     print("implementation %s:" % mode,
-                          np.asarray(f.convolve(x.astype(float), w.astype(float), mode=mode)).round(6).tolist()[:40])
+                          np.asarray(f.convolve(as_dtype(x, inp.get("dtype", "float64"), inp.get("noncontig", False)),
+                                                as_dtype(w, inp.get("wdtype", "float64"), inp.get("noncontig", False)),
+                                                mode=mode)).round(6).tolist()[:40])
                 except Exception as e:
                     print("implementation %s raised %r" % (mode, e))
             if x.ndim == 1 and w.ndim == 1:
                 print("direct convolution:", direct_full(x, w).tolist()[:40])
-            conv_check(sub, cs, x, w, inp.get("kind", "replay"))
+            conv_check(sub, cs, x, w, inp.get("kind", "replay"), dtype=inp.get("dtype", "float64"),
+                       wdtype=inp.get("wdtype"), noncontig=inp.get("noncontig", False))
         elif op == "fscale":
             fs = f.fscale(inp["ns"], inp["si"], one_sided=inp["one_sided"])
             print("implementation:", np.asarray(fs)[:20])
@@ -808,6 +916,16 @@ def replay(ctx, data):
             print("lp(axis=%d) shape %s; lp(axis=%d) shape %s" % (inp["axis"], o.shape, ts.ndim + inp["axis"], ref.shape))
             if o.shape != ref.shape or np.max(np.abs(o - ref)) > TOL * max(1.0, float(np.abs(ts).sum())):
                 sub.fail("negative axis", inp)
+        elif op == "fcn_cosine-codes":
+            den, b0n, b1n, xs = inp["den"], inp["b0n"], inp["b1n"], inp["xn"]
+            outs = common.Extracted(PROP).run_many([[8, b0n, b1n, xn] for xn in xs])
+            exp = np.array([taper_value(*c) for c in outs])
+            y = np.asarray(U().fcn_cosine([b0n / den, b1n / den])((np.array(xs, dtype=float) / den).astype(inp.get("xdtype", "float64"))), dtype=float)
+            print("x*den:", xs, "\nimplementation:", y.tolist(), "\nmodel:", exp.tolist())
+            if np.max(np.abs(y - exp)) > 1e-6:
+                sub.disagree("codes", inp)
+            if any((xn <= b0n and yv != 0.0) or (xn >= b1n and abs(yv - 1.0) > 1e-6) for xn, yv in zip(xs, y)):
+                sub.fail("exact bound", inp)
         elif op == "fcn_cosine":
             xs = np.array(inp["x"])
             y = U().fcn_cosine(inp["bounds"])(xs.copy())
